@@ -214,6 +214,7 @@ def build_scenario_id(s=None):
 
 
 def build_scenario(s):
+    shared = {}
     sc = Scenario(dt=float(s.get("dt", 0.1)), scenario_id=build_scenario_id(s.get("sid")),
                   author=s.get("author", "sim"), tags={Tag[t] for t in s.get("tags", ["URBAN"])},
                   affiliation=s.get("affiliation", "verif"), source=s.get("source", "generated"),
@@ -221,7 +222,17 @@ def build_scenario(s):
     if "network" in s:
         sc.add_objects(build_network(s["network"]))
     for o in s.get("obstacles", []):
-        sc.add_objects(build_obstacle(o))
+        ob = build_obstacle(o)
+        # "share_states_with": the caller built two trajectories from one list of state objects
+        src = o.get("share_states_with")
+        if src is not None and src in shared and getattr(ob, "prediction", None) is not None:
+            other = shared[src]
+            ob.prediction = TrajectoryPrediction(Trajectory(other.initial_time_step, other.state_list),
+                                                 ob.prediction.shape)
+            ob.initial_state.time_step = other.initial_time_step - 1
+        if hasattr(ob, "prediction") and isinstance(getattr(ob, "prediction", None), TrajectoryPrediction):
+            shared[o["id"]] = ob.prediction.trajectory
+        sc.add_objects(ob)
     return sc
 
 
